@@ -1,9 +1,11 @@
 package props
 
 import (
+	"context"
 	"fmt"
 	"runtime"
 	"sync"
+	"time"
 
 	"verif/harness/evid"
 	"verif/harness/oracle"
@@ -11,6 +13,7 @@ import (
 
 	"github.com/attestantio/dirk/core"
 	"github.com/attestantio/dirk/util"
+	pb "github.com/wealdtech/eth2-signer-api/pb/v1"
 )
 
 // C09 checks (1) no spurious refusal of advancing duties, (2) batch == one-at-a-time on twin
@@ -25,6 +28,7 @@ func C09(cfg Cfg) int {
 	c09Advancing(run, cfg)
 	c09Twin(run, cfg)
 	c09Scatter(run, cfg)
+	c09Wire(run, cfg)
 	return run.Finish()
 }
 
@@ -265,4 +269,93 @@ func c09Scatter(run *evid.Run, cfg Cfg) {
 	run.Eval(calls)
 	run.Count("scatter_grid_calls", calls)
 	run.Set("scatter_grid_exhaustive", fmt.Sprintf("n in 1..%d x GOMAXPROCS in 1..33,64,128", maxN))
+}
+
+// c09Wire sends large batches of advancing attestations to the real daemon over TLS/gRPC: whatever sits between
+// the client and the rules (transport limits, interceptors, handler) must not refuse what one-at-a-time signs.
+func c09Wire(run *evid.Run, cfg Cfg) {
+	ca, err := rig.NewCA("verif-ca")
+	if err != nil {
+		run.Inconclusive(err.Error())
+		return
+	}
+	const wallets, perWallet = 8, 64
+	nd := map[string][]string{}
+	perms := map[string][]string{}
+	type acct struct {
+		name string
+		key  *rig.Key
+	}
+	var accts []acct
+	for w := 0; w < wallets; w++ {
+		wname := fmt.Sprintf("Big%d", w)
+		perms[wname] = []string{"All"}
+		for i := 0; i < perWallet; i++ {
+			nd[wname] = append(nd[wname], fmt.Sprintf("v%d", i))
+			accts = append(accts, acct{wname + "/" + fmt.Sprintf("v%d", i), rig.DetKey("ndw-"+wname, i)})
+		}
+	}
+	port := rig.FreePort("127.0.0.1")
+	d, err := rig.PrepareDaemon(rig.DaemonOpts{Dir: cfg.Dir("c09-wire"), ID: 1, IP: "127.0.0.1", Port: port, CA: ca,
+		Peers: map[uint64]string{1: fmt.Sprintf("127.0.0.1:%d", port)}, Permissions: map[string]map[string][]string{"client1": perms}, NDWallets: nd})
+	if err != nil {
+		run.Inconclusive("cannot prepare daemon: " + err.Error())
+		return
+	}
+	if err := d.Start(); err != nil {
+		run.Inconclusive("cannot start daemon: " + err.Error() + d.LogTail(300))
+		return
+	}
+	defer d.Kill()
+	crt, _ := ca.Issue(rig.CertOpts{CN: "client1"})
+	conn, err := rig.Dial(d.Addr, rig.ClientTLS(ca, crt.TLS), "")
+	if err != nil {
+		run.Inconclusive(err.Error())
+		return
+	}
+	defer conn.Close()
+	signer := pb.NewSignerClient(conn)
+	epoch := uint64(100)
+	for _, n := range []int{1, 2, 17, 64, 200, 320, 400, 512} {
+		for _, byKey := range []bool{false, true} {
+			epoch += 2
+			req := &pb.SignBeaconAttestationsRequest{}
+			for i := 0; i < n; i++ {
+				r := &pb.SignBeaconAttestationRequest{Domain: Dom(DomainAttester, 0), Data: &pb.AttestationData{Slot: epoch * 32, CommitteeIndex: uint64(i % 64), BeaconBlockRoot: Root32(9),
+					Source: &pb.Checkpoint{Epoch: epoch, Root: Root32(1)}, Target: &pb.Checkpoint{Epoch: epoch + 1, Root: Root32(2)}}}
+				if byKey {
+					r.Id = &pb.SignBeaconAttestationRequest_PublicKey{PublicKey: accts[i].key.Pub}
+				} else {
+					r.Id = &pb.SignBeaconAttestationRequest_Account{Account: accts[i].name}
+				}
+				req.Requests = append(req.Requests, r)
+			}
+			ctx, cancel := context.WithTimeout(context.Background(), 120*time.Second)
+			res, err := signer.SignBeaconAttestations(ctx, req)
+			cancel()
+			run.Eval(n)
+			cell := fmt.Sprintf("wire batch n=%d by-key=%v", n, byKey)
+			if err != nil {
+				run.Violate(fmt.Sprintf("%s: a batch of advancing, authorised attestations was not answered: %v", cell, err), cell)
+				continue
+			}
+			signed := 0
+			for i, r := range res.GetResponses() {
+				if r.GetState() == pb.ResponseState_SUCCEEDED {
+					root := oracle.SigningRoot(oracle.AttestationDataRoot(epoch*32, uint64(i%64), Root32(9), epoch, Root32(1), epoch+1, Root32(2)), Dom(DomainAttester, 0))
+					if ok, _ := oracle.VerifySig(accts[i].key.Pub, root[:], r.GetSignature()); ok {
+						signed++
+					}
+				}
+			}
+			run.Distinct(fmt.Sprintf("%s signed=%d", cell, signed))
+			run.Count("wire_batch_entries_signed", signed)
+			if len(res.GetResponses()) != n || signed != n {
+				run.Violate(fmt.Sprintf("%s: %d responses, %d valid signatures for %d advancing attestations", cell, len(res.GetResponses()), signed, n), cell)
+			}
+		}
+	}
+	if !d.Alive() {
+		run.Violate("the daemon died while signing large batches: "+firstPanicLine(d.LogTail(20000)), nil)
+	}
 }
